@@ -5497,10 +5497,15 @@ class Symbol:
             or (
                 type(value) is str  # values other than bool should be string
                 and (
-                    (self.orig_type == INT and _is_base_n(value, 10))  # valid int
+                    (self.orig_type == INT and _is_plain_number(value, INT) and _is_base_n(value, 10))  # valid int
                     or self.orig_type == STRING  # valid string
-                    or (self.orig_type == HEX and _is_base_n(value, 16) and int(value, 16) >= 0)  # valid hex
-                    or (self.orig_type == FLOAT and is_float(value))  # valid float
+                    or (
+                        self.orig_type == HEX
+                        and _is_plain_number(value, HEX)
+                        and _is_base_n(value, 16)
+                        and int(value, 16) >= 0
+                    )  # valid hex
+                    or (self.orig_type == FLOAT and _is_plain_number(value, FLOAT) and is_float(value))  # valid float
                 )
             )
         )
@@ -7626,6 +7631,16 @@ def _is_base_n(s, n):
         return False
 
 
+def _is_plain_number(s, type_):
+    """
+    Return True if 's' is written the way a number of the given type is written in configuration files and
+    generated outputs: sign, digits (0x prefix for hex, fraction/exponent for float) and nothing else.
+    int() and float() also accept surrounding whitespace, digit-group underscores ("1_0") and non-ASCII digits;
+    such values would be written verbatim into sdkconfig, the C header and CMake files.
+    """
+    return _PLAIN_NUMBER_MATCH[type_](s) is not None
+
+
 def _looks_like_number(s):
     """
     Return True if the string 's' looks like a number.
@@ -7665,8 +7680,12 @@ def _normalize_float(s):
 
     Returns:
         A normalized string representation of the float value.
-        Returns the original string if it cannot be parsed as a float.
+        Returns the original string if it cannot be parsed as a float, or is not
+        written as a plain number (see _is_plain_number()) and must not be
+        turned into an acceptable value by normalization.
     """
+    if type(s) is str and not _is_plain_number(s, FLOAT):
+        return s
     try:
         return str(float(s))
     except ValueError:
@@ -8305,6 +8324,12 @@ TYPE_TO_STR = {
 
 # Used in comparisons. 0 means the base is inferred from the format of the
 # string.
+_PLAIN_NUMBER_MATCH = {
+    INT: re.compile(r"[-+]?[0-9]+\Z", re.ASCII).match,
+    HEX: re.compile(r"(0[xX])?[0-9a-fA-F]+\Z", re.ASCII).match,  # unsigned: hex values get a 0x prefix on output
+    FLOAT: re.compile(r"[-+]?([0-9]+\.?[0-9]*|\.[0-9]+)([eE][-+]?[0-9]+)?\Z", re.ASCII).match,
+}
+
 _TYPE_TO_BASE = {
     HEX: 16,
     INT: 10,
